@@ -19,6 +19,37 @@ def _usize_lit(txt, what):
 NUM_THREADS = r"rayon\s*::\s*current_num_threads\s*\(\s*\)"
 
 
+def _fingerprint(body):
+    """sha256 of a function body with comments and ALL whitespace removed; in weighted_median the two
+    statements whose literals are extracted separately (chunk_count, chunk_size) are masked."""
+    import hashlib
+    b = re.sub(r"let\s+chunk_count\s*=\s*[^;]+;", "let chunk_count=#;", body)
+    b = re.sub(r"let\s+chunk_size\s*=\s*[^;]+;", "let chunk_size=#;", b)
+    b = re.sub(r"\s+", "", b)
+    return hashlib.sha256(b.encode()).hexdigest()[:16]
+
+
+# The Gallina model mirrors these function bodies statement by statement (Model/GridRcb.v).  Any
+# change of their text -- a secondary search path with its own prefix sum, another return, a
+# different loop -- must be re-modelled: the translator fails closed until the model and the
+# fingerprint are updated together.  (Literals the proofs depend on are extracted separately.)
+EXPECTED_BODY = {
+    "part_of": "b248e76363bf43f6",
+    "weighted_median": "811ff79dac8853b8",
+    "recurse_2d": "fb8fe6f1a50e8cfd",
+    "recurse_3d": "3ef5f1492018491a",
+}
+EXPECTED_MOD_BODY = {
+    "into_subgrid": "0963cd1d5e6c2721",
+    "position_of": "9f84f4ed8344c030",
+    "index_of": "dff5f48b5767fa82",
+    "axis": "56d0fd32007d9e95",
+    "split_at": "2a9e569898b681a5",
+}
+# every fn of rcb.rs outside `mod tests`: a new helper (e.g. a sequential scan) is a new code path
+EXPECTED_FNS = ["part_of", "weighted_median", "recurse_2d", "recurse_3d"]
+
+
 def gen_gridrcb():
     rel = "src/cartesian/rcb.rs"
     src = _strip_comments(read(rel))
@@ -34,6 +65,21 @@ def gen_gridrcb():
     body = fn_body(src, "weighted_median")
     if body is None:
         raise Fail("fn weighted_median not found")
+    # --- structure: the functions of the file and the text of the modelled bodies
+    main_src = src.split("#[cfg(test)]")[0]
+    fns = re.findall(r"\bfn\s+(\w+)", main_src)
+    if fns != EXPECTED_FNS:
+        raise Fail("functions of rcb.rs are %s, the model covers %s (a new helper is a new code path: model it)" % (fns, EXPECTED_FNS))
+    for name in EXPECTED_FNS:
+        b = fn_body(main_src, name)
+        if b is None:
+            raise Fail("fn %s not found" % name)
+        fp = _fingerprint(b)
+        if fp != EXPECTED_BODY[name]:
+            raise Fail("the body of fn %s changed (fingerprint %s, the model mirrors %s): re-model it in "
+                       "coq/Model/GridRcb.v and update EXPECTED_BODY" % (name, fp, EXPECTED_BODY[name]))
+    if len(re.findall(r"\bloop\s*\{", body)) != 1 or len(re.findall(r"\breturn\b", body)) != 2:
+        raise Fail("weighted_median is expected to be ONE `loop` with exactly two `return`s (band hit, window of one slab)")
     # --- thresholds: ideal = total/2.0, min = ideal*(1.0-TOLERANCE), max = ideal*(1.0+TOLERANCE)
     if not re.search(r"let\s+ideal_part_weight\s*:\s*f64\s*=\s*total_weight\s*\.\s*as_\s*\(\s*\)\s*/\s*2\.0\s*;", body):
         raise Fail("`let ideal_part_weight: f64 = total_weight.as_() / 2.0;` not found")
@@ -74,6 +120,14 @@ def gen_gridrcb():
         if len(mm) != 1:
             raise Fail("call of rcb::recurse_%s(self, self.into_subgrid(), weights, total_weight, iter_count, <axis>) not found" % d)
         starts.append(int(mm[0]))
+    for name in EXPECTED_MOD_BODY:
+        b = fn_body(msrc, name)
+        if b is None:
+            raise Fail("fn %s not found in mod.rs" % name)
+        fp = _fingerprint(b)
+        if fp != EXPECTED_MOD_BODY[name]:
+            raise Fail("the body of fn %s (mod.rs) changed (fingerprint %s, the model mirrors %s): re-model it in "
+                       "coq/Model/GridRcb.v and update EXPECTED_MOD_BODY" % (name, fp, EXPECTED_MOD_BODY[name]))
     po = re.findall(r"iters\s*\.\s*part_of\s*\(\s*pos\s*,\s*(\d+)\s*\)", msrc)
     if len(po) != 2:
         raise Fail("expected two `iters.part_of(pos, <axis>)` calls in mod.rs, found %d" % len(po))
@@ -104,8 +158,8 @@ PROP = dict(
     harness_timeout=2400,
     coqc_timeout=3000,      # per shard; ~10 s of CPU, but the machine is shared
 
-    rule="inputs drawn from 2-D and 3-D grids (sides 1..12, incl. 1 x n, n x 1, 1 x 1 x n, cubes, and long thin 2-D grids up "
-         "to 8 x 100; at most 600 cells in the quick tier, 1728 in the thorough tier), iter_count 0..6, three weight streams: "
+    rule="inputs drawn from 2-D and 3-D grids (sides 1..12, incl. 1 x n, n x 1, 1 x 1 x n, cubes, long thin 2-D grids up "
+         "to 8 x 100, and a few grids with MORE THAN 1024 slabs on one axis (1xN, 2xN, Nx1, 1x1xN, N in 1025..6000); at most 600 cells in the quick tier, 1728 in the thorough tier), iter_count 0..6, three weight streams: "
          "(a) i64 -- 11 families (uniform, sparse, skewed, all-zero, one dominant, random, gradient, two clusters, large < 2^46, "
          "huge <= 2^52, giant <= 2^61) plus band-edge inputs (totals 2^57..2^62 whose chunk boundary sits exactly on the accepted band's edge; the first group of every run is the fixed witness of the known finding); every i64 input with total >= 2^46 is run twice: tagged with the known-finding class and judged by the LITERAL clause, then as an untagged twin judged by the proved clause; (b) f64 multiples of 2^-k, whose sums are exact whatever rayon's association -- the "
          "integer families at k = 0 and 7 fractional families (uniform in [0,1) on a 2^-k grid, normalised to sum exactly 1, "
